@@ -188,9 +188,16 @@ def ExactPosition(position, extension=0):
 # --------------------------------------------------------------------------
 # Bio.Seq
 # --------------------------------------------------------------------------
+_COMP_PAIRS = [(65, 84), (67, 71), (66, 86), (68, 72), (75, 77), (82, 89)]   # A-T C-G B-V D-H K-M R-Y
+
+
 def _comp(o):
-    """Branch-free complement on A/C/G/T (identity elsewhere)."""
-    return o + (o == 65) * 19 - (o == 84) * 19 + (o == 67) * 4 - (o == 71) * 4
+    """Branch-free complement of an upper-case IUPAC code point (as Bio.Seq does it);
+    identity on S, W, N, X and on everything that is not a nucleotide letter."""
+    r = o
+    for a, b in _COMP_PAIRS:
+        r = r + (o == a) * (b - a) + (o == b) * (a - b)
+    return r + (o == 85) * (65 - 85)     # U -> A
 
 
 def _to_points(data):
